@@ -72,6 +72,20 @@ def baseline(kind, text):
     return _base[k]
 
 
+def cheap_state(engine):
+    """What an engine carries between parses, cheaply: attributes of the engine object (containers by length and
+    element identity) and the scalar cursor fields of its lexer."""
+    out = []
+    for k, v in sorted(vars(engine).items()):
+        if isinstance(v, (list, tuple, set, dict)):
+            out.append((k, len(v), tuple(id(x) for x in v)))
+        else:
+            out.append((k, id(v)))
+    lx = engine.lexer
+    out.append(tuple((k, getattr(lx, k, None)) for k in ('lexdata', 'lexpos', 'lexlen', 'lineno', 'lexstate')))
+    return tuple(out)
+
+
 def engine_state(engine, full=False):
     """Complete snapshot of everything the engine keeps between parses.  The grammar production
     table (immutable, 16 ms to walk) is represented by its repr per transition and walked completely
@@ -242,6 +256,13 @@ def explore_group(res, kind, group, full_limit, bound_else, label):
             return tuple(parse_outcome(eng[0], t) for t in prog)
         return body
     bodies = [mk(p) for p in group]
+    mode = {'fresh': False}
+
+    def reset():
+        # executions normally share one engine (a rebuild costs 0.15 s); after a replay divergence (parsing left
+        # state on the engine that changes the trace of later executions) every execution gets a fresh engine
+        if mode['fresh']:
+            eng[0] = make_engine(kind)
     pts = [sum(count_points(eng[0], t) for t in prog) for prog in group]
     total = n_interleavings(pts)
     bound = None if total <= full_limit else bound_else
@@ -275,7 +296,15 @@ def explore_group(res, kind, group, full_limit, bound_else, label):
                 raise _Stop()                # verdict is decided; do not pay 0.5 s per further violating schedule
             eng[0] = make_engine(kind)       # state may be corrupt: never carry it over
     try:
-        n, capped = sched.explore(bodies, bound, check)
+        try:
+            n, capped = sched.explore(bodies, bound, check, reset=reset)
+        except sched.Divergence as e:
+            mode['fresh'] = True
+            stats['n'] = 0
+            res.notes.append('C01 group %r: replay diverged on the reused engine (%s); re-explored with a fresh engine per '
+                             'execution, capped at 400 schedules' % (group, str(e)[:80]))
+            n, capped = sched.explore(bodies, bound if bound is not None else 2, check, max_schedules=400, reset=reset)
+            res.caps.append('group %r explored with fresh engines, capped at 400 schedules (bound %r)' % (group, bound))
     except _Stop:
         n = stats['n']
         res.caps.append('group %r stopped at its first confirmed violation after %d schedules' % (group, n))
@@ -405,7 +434,18 @@ def job_eval_path(texts):
                          {'kind': 'evalpath', 'a': ta, 'b': tb, 'choices': list(x.choices)},
                          'results %r alone %r' % (x.res, base), size=len(x.choices))
         res.case(('evalpath', ta, tb))
-        sched.explore([mk(ta), mk(tb)], 1 if cold else 2, check, reset=reset)
+        try:
+            sched.explore([mk(ta), mk(tb)], 1 if cold else 2, check, reset=reset)
+        except sched.Divergence as e:
+            # parsing left state on the cached module-level engine: give every execution a new one
+            res.notes.append('C01 evalpath %r||%r: replay diverged (%s); re-explored with a fresh cached engine per execution, '
+                             'capped at 100 schedules' % (ta, tb, str(e)[:80]))
+            res.caps.append('evalpath %r||%r capped at 100 schedules with fresh engines' % (ta, tb))
+
+            def reset_cold():
+                y._cached_engine = None
+                y._cached_expressions = {}
+            sched.explore([mk(ta), mk(tb)], 1, check, max_schedules=100, reset=reset_cold)
         res.outcomes['evalpath ' + ('violating' if stats[0] else 'clean')] += 1
     return res
 
